@@ -109,7 +109,7 @@ func compiledRouteKey(route *ast.Route) string {
 }
 
 // setupRoutes handles the common logic of determining execution mode, compiling routes,
-// and setting up the router. Used by both startServer and startDevServerInternal.
+// and setting up the router. Used by both startServer and buildDevServer.
 // filePath is the path to the source file, used for resolving relative module imports.
 func setupRoutes(module *ast.Module, filePath string, forceInterpreter ...bool) (useCompiler bool, compiledRoutes map[string][]byte, wsServer *websocket.Server, router *server.Router, err error) {
 	useCompiler = true
